@@ -165,6 +165,9 @@ impl TypeLoweringManager {
         panic!("any(placeholder={placeholder}) at {reason:?}")
       }
       type_::Type::Primitive(_, _) => Type::Int32,
+      // A class used as a value has no run-time content (it is lowered to the constant 0) and,
+      // for a generic class, no type arguments to instantiate the class type with.
+      type_::Type::Nominal(id) if id.is_class_statics => Type::Int31,
       type_::Type::Nominal(id) => {
         let id_string = id.id;
         Type::Id(IdType {
